@@ -831,9 +831,20 @@ def native_getattr(it, obj, name):
     elif isinstance(obj, Opaque):
         # formatted strings etc.: any method yields another opaque value
         return Builtin("opaque." + name, lambda *a, **k: Opaque(obj.what + "." + name))
+    pure = _pure_native_method(it, obj, name)
     if tbl is not None and name in tbl:
         f = tbl[name]
-        return Builtin(f"{type(obj).__name__}.{name}", lambda *a, **k: f(it, obj, *a, **k))
+        if pure is None:
+            return Builtin(f"{type(obj).__name__}.{name}", lambda *a, **k: f(it, obj, *a, **k))
+
+        def both(*a, **k):
+            # concrete receiver: concrete arguments take CPython's own answer, symbolic ones the model
+            if all(_is_plain(x) for x in list(a) + list(k.values())):
+                return pure.fn(*a, **k)
+            return f(it, obj, *a, **k)
+        return Builtin(f"{type(obj).__name__}.{name}", both)
+    if pure is not None:
+        return pure
     # A method this interpreter does not model is NOT a missing attribute: only what the real Python type lacks raises
     # AttributeError; anything else is outside the modelled subset (undecided, never a verdict about the code).
     import collections as _c
@@ -844,6 +855,64 @@ def native_getattr(it, obj, name):
     if real is not None and hasattr(real, name):
         raise Unsupported(f"{real.__name__}.{name} is not modelled by the interpreter")
     raise it.exc("AttributeError", f"{type(obj).__name__} has no attribute {name}")
+
+
+_PURE_STR = {"lstrip", "rstrip", "strip", "find", "rfind", "index", "rindex", "count", "partition", "rpartition", "rsplit", "splitlines",
+             "ljust", "rjust", "center", "zfill", "title", "capitalize", "casefold", "swapcase", "expandtabs", "removeprefix", "removesuffix",
+             "isalpha", "isalnum", "isascii", "isdecimal", "isdigit", "isnumeric", "isspace", "isupper", "islower", "istitle", "isidentifier",
+             "isprintable", "lower", "upper", "startswith", "endswith", "replace", "translate"}
+_PURE_BYTES = (_PURE_STR - {"casefold", "isdecimal", "isnumeric", "isidentifier", "isprintable"}) | {"hex"}
+
+
+def _is_plain(a):
+    if isinstance(a, BytesVal):
+        return a.is_concrete()
+    if isinstance(a, tuple):
+        return all(_is_plain(x) for x in a)
+    return a is None or isinstance(a, (str, int, bytes))
+
+
+def _pure_native_method(it, obj, name):
+    """A pure method of a *concrete* str / bytes value, all arguments concrete: the result is what CPython computes (this
+    interpreter runs on CPython; the version difference to the package's interpreter is part of the trusted base).
+    Anything symbolic among the receiver or the arguments: not handled here."""
+    from .values import PyExc  # noqa: F401
+    if isinstance(obj, str) and name in _PURE_STR:
+        recv, back = obj, lambda r: r
+    elif isinstance(obj, BytesVal) and obj.is_concrete() and name in _PURE_BYTES:
+        mut = obj.mutable
+        recv = bytearray(obj.to_bytes()) if mut else obj.to_bytes()
+
+        def back(r):
+            if isinstance(r, (bytes, bytearray)):
+                return BytesVal.of(r, isinstance(r, bytearray))
+            if isinstance(r, tuple):
+                return tuple(back(x) for x in r)
+            if isinstance(r, list):
+                return [back(x) for x in r]
+            return r
+    else:
+        return None
+
+    def conv(a):
+        if isinstance(a, BytesVal):
+            if not a.is_concrete():
+                raise Unsupported(f"{type(recv).__name__}.{name} with a symbolic argument")
+            return a.to_bytes()
+        if isinstance(a, tuple):
+            return tuple(conv(x) for x in a)
+        if a is None or isinstance(a, (str, int, bytes, dict)):
+            return a
+        raise Unsupported(f"{type(recv).__name__}.{name} with a symbolic argument")
+
+    def call(*a, **k):
+        a = [conv(x) for x in a]
+        k = {kk: conv(v) for kk, v in k.items()}
+        try:
+            return back(getattr(recv, name)(*a, **k))
+        except (ValueError, TypeError, OverflowError) as e:
+            raise it.exc(type(e).__name__, str(e))
+    return Builtin(f"{type(recv).__name__}.{name}", call)
 
 
 def _list_append(it, l, x):
@@ -1196,13 +1265,149 @@ def _bytes_append(it, b, x):
     b.items.append(x)
 
 
-def _bytes_strip(it, b, chars=None):
-    if b.is_concrete() and (chars is None or chars.is_concrete()):
-        return BytesVal.of(b.to_bytes().strip(None if chars is None else chars.to_bytes()))
-    raise Unsupported("strip on symbolic bytes")
+def _bytes_strip(it, b, chars=None, left=True, right=True):
+    """bytes.strip / lstrip / rstrip.  Symbolic content with a concrete set of bytes to strip: forks on how many
+    bytes go at each end (at most len + 1 paths per end)."""
+    if chars is not None and not (isinstance(chars, BytesVal) and chars.is_concrete()):
+        raise Unsupported("bytes.strip with a symbolic set of bytes")
+    cs = sorted(set(chars.to_bytes())) if chars is not None else sorted(set(b" \t\n\r\x0b\x0c"))
+    if b.is_concrete():
+        raw = b.to_bytes()
+        arg = bytes(cs)
+        out = raw.strip(arg) if left and right else raw.lstrip(arg) if left else raw.rstrip(arg)
+        return BytesVal.of(out) if not b.mutable else BytesVal(list(out), True)
+    items = list(b.items)
+
+    def stripped(x):
+        return Or(*[eq(x, c) for c in cs]) if cs else False
+    if right:
+        while items and it.path.branch(stripped(items[-1])):
+            items.pop()
+    if left:
+        while items and it.path.branch(stripped(items[0])):
+            items.pop(0)
+    return BytesVal(items, b.mutable)
+
+
+def _bytes_index(it, b, sub, *a):
+    r = _bytes_find(it, b, sub, *a)
+    if r == -1:
+        raise it.exc("ValueError", "subsection not found")
+    return r
+
+
+def _bytes_rfind(it, b, sub, *a):
+    if a or not isinstance(sub, BytesVal) or not sub.is_concrete() or len(sub.items) != 1:
+        raise Unsupported("bytes.rfind with bounds / a symbolic or multi-byte pattern")
+    for i in range(len(b.items) - 1, -1, -1):
+        if it.path.branch(eq(b.items[i], sub.items[0])):
+            return i
+    return -1
+
+
+def _bytes_count(it, b, sub, *a):
+    if a or not isinstance(sub, BytesVal) or not sub.is_concrete() or len(sub.items) != 1:
+        raise Unsupported("bytes.count with bounds / a symbolic or multi-byte pattern")
+    return sum((sym.ite(eq(x, sub.items[0]), 1, 0) for x in b.items), 0)
+
+
+def _bytes_endswith(it, b, p):
+    if not isinstance(p, BytesVal):
+        raise Unsupported("bytes.endswith with a tuple / symbolic-length suffix")
+    n = len(p.items)
+    if n > len(b.items):
+        return False
+    return And(*[eq(x, y) for x, y in zip(b.items[len(b.items) - n:], p.items)]) if n else True
+
+
+def _bytes_just(it, b, width, fill=None, left=True):
+    if not isinstance(width, int):
+        raise Unsupported("bytes.ljust / rjust with a symbolic width")
+    f = 0x20 if fill is None else fill.items[0]
+    pad = [f] * max(0, width - len(b.items))
+    return BytesVal(list(b.items) + pad if left else pad + list(b.items), b.mutable)
+
+
+def _bytes_replace1(it, b, old, new, count=-1):
+    """replace of one byte by one byte (the only shape that keeps the length concrete)."""
+    if count != -1 or not all(isinstance(x, BytesVal) and x.is_concrete() and len(x.items) == 1 for x in (old, new)):
+        raise Unsupported("bytes.replace other than one concrete byte by one concrete byte")
+    o, n = old.items[0], new.items[0]
+    return BytesVal([sym.ite(eq(x, o), n, x) if is_sym(x) else (n if x == o else x) for x in b.items], b.mutable)
+
+
+def _bytes_join(it, b, parts):
+    out = []
+    first = True
+    for p in it.iterate(parts):
+        if isinstance(p, (bytes, bytearray)):
+            p = BytesVal.of(p)
+        if not isinstance(p, BytesVal):
+            raise Unsupported("bytes.join of symbolic-length parts")
+        if not first:
+            out.extend(b.items)
+        out.extend(p.items)
+        first = False
+    return BytesVal(out, b.mutable)
+
+
+def _bytes_remove_affix(it, b, p, prefix=True):
+    hit = _bytes_startswith(it, b, p) if prefix else _bytes_endswith(it, b, p)
+    n = len(p.items)
+    if hit is False or not it.path.branch(hit):
+        return BytesVal(list(b.items), b.mutable)
+    return BytesVal(b.items[n:] if prefix else b.items[:len(b.items) - n], b.mutable)
+
+
+def _bytes_startswith(it, b, p):
+    if not isinstance(p, BytesVal):
+        raise Unsupported("bytes.startswith with a tuple / symbolic-length prefix")
+    if len(p.items) > len(b.items):
+        return False
+    return And(*[eq(x, y) for x, y in zip(b.items, p.items)]) if p.items else True
+
+
+def _bytes_pop(it, b, i=-1):
+    if not b.mutable:
+        raise it.exc("AttributeError", "'bytes' object has no attribute 'pop'")
+    if not isinstance(i, int):
+        raise Unsupported("bytearray.pop with a symbolic index")
+    try:
+        return b.items.pop(i)
+    except IndexError:
+        raise it.exc("IndexError", "pop from empty bytearray")
+
+
+def _bytes_insert(it, b, i, x):
+    if not b.mutable:
+        raise it.exc("AttributeError", "'bytes' object has no attribute 'insert'")
+    if not isinstance(i, int):
+        raise Unsupported("bytearray.insert with a symbolic index")
+    tmp = BytesVal([], True)
+    _bytes_append(it, tmp, x)
+    b.items.insert(i, tmp.items[0])
+
+
+def _bytes_reverse(it, b):
+    if not b.mutable:
+        raise it.exc("AttributeError", "'bytes' object has no attribute 'reverse'")
+    b.items.reverse()
 
 
 _BYTES = {
+    "index": _bytes_index,
+    "rfind": _bytes_rfind,
+    "count": _bytes_count,
+    "endswith": _bytes_endswith,
+    "ljust": lambda it, b, w, f=None: _bytes_just(it, b, w, f, left=True),
+    "rjust": lambda it, b, w, f=None: _bytes_just(it, b, w, f, left=False),
+    "replace": _bytes_replace1,
+    "join": _bytes_join,
+    "removeprefix": lambda it, b, p: _bytes_remove_affix(it, b, p, True),
+    "removesuffix": lambda it, b, p: _bytes_remove_affix(it, b, p, False),
+    "pop": _bytes_pop,
+    "insert": _bytes_insert,
+    "reverse": _bytes_reverse,
     "decode": _bytes_decode,
     "split": _bytes_split,
     "partition": _bytes_partition,
@@ -1212,7 +1417,9 @@ _BYTES = {
     "extend": _bytes_extend,
     "append": _bytes_append,
     "strip": _bytes_strip,
-    "startswith": lambda it, b, p: And(len(p.items) <= len(b.items), *[eq(x, y) for x, y in zip(b.items, p.items)]) if len(p.items) <= len(b.items) else False,
+    "lstrip": lambda it, b, chars=None: _bytes_strip(it, b, chars, left=True, right=False),
+    "rstrip": lambda it, b, chars=None: _bytes_strip(it, b, chars, left=False, right=True),
+    "startswith": _bytes_startswith,
     "copy": lambda it, b: BytesVal(list(b.items), b.mutable),
     "clear": lambda it, b: b.items.clear(),
 }
